@@ -42,10 +42,53 @@ impl Session {
         }
     }
 
+    /// Send a complete, valid request and then reset the connection (RST, not FIN) `after_ms` later without
+    /// reading the reply: a client that crashes or whose network path breaks while the service still works on
+    /// its request. Nothing is learnt about the outcome; the request may or may not take effect.
+    pub fn request_and_reset(&mut self, method: &str, path: &str, body: Body, after_ms: u64) -> Result<(), String> {
+        let mut s = TcpStream::connect(("127.0.0.1", self.port)).map_err(|e| format!("connect: {}", e))?;
+        s.set_nodelay(true).ok();
+        let bytes = self.build(method, path, body);
+        s.write_all(&bytes).map_err(|e| format!("write: {}", e))?;
+        std::thread::sleep(Duration::from_millis(after_ms));
+        // SO_LINGER with a zero timeout turns close() into a reset
+        use std::os::fd::AsRawFd;
+        let lg = libc::linger { l_onoff: 1, l_linger: 0 };
+        let rc = unsafe { libc::setsockopt(s.as_raw_fd(), libc::SOL_SOCKET, libc::SO_LINGER, &lg as *const _ as *const libc::c_void, std::mem::size_of::<libc::linger>() as libc::socklen_t) };
+        if rc != 0 {
+            return Err("setsockopt(SO_LINGER) failed".into());
+        }
+        drop(s);
+        Ok(())
+    }
+
     pub fn request(&mut self, method: &str, path: &str, body: Body) -> Result<Response, String> {
         let mut s = TcpStream::connect(("127.0.0.1", self.port)).map_err(|e| format!("connect: {}", e))?;
         s.set_read_timeout(Some(Duration::from_secs(120))).ok();
         s.set_nodelay(true).ok();
+        let bytes = self.build(method, path, body);
+        s.write_all(&bytes).map_err(|e| format!("write: {}", e))?;
+        let mut raw = Vec::new();
+        s.read_to_end(&mut raw).map_err(|e| format!("read: {}", e))?;
+        let resp = parse_response(&raw)?;
+        for (k, v) in &resp.headers {
+            if k.eq_ignore_ascii_case("set-cookie") {
+                let first = v.split(';').next().unwrap_or("");
+                if let Some((name, val)) = first.split_once('=') {
+                    let expired = v.to_lowercase().contains("max-age=0") || val.is_empty();
+                    if expired {
+                        self.cookies.remove(name.trim());
+                    } else {
+                        self.cookies.insert(name.trim().to_string(), val.trim().to_string());
+                    }
+                }
+            }
+        }
+        Ok(resp)
+    }
+
+    /// the bytes of one request (head with the session's cookies, then the payload)
+    fn build(&self, method: &str, path: &str, body: Body) -> Vec<u8> {
         let (ctype, payload): (Option<String>, Vec<u8>) = match body {
             Body::None => (None, Vec::new()),
             Body::Json(v) => (Some("application/json".into()), serde_json::to_vec(&v).unwrap()),
@@ -73,25 +116,9 @@ impl Session {
             req.push_str(&format!("Content-Length: {}\r\n", payload.len()));
         }
         req.push_str("\r\n");
-        s.write_all(req.as_bytes()).map_err(|e| format!("write: {}", e))?;
-        s.write_all(&payload).map_err(|e| format!("write: {}", e))?;
-        let mut raw = Vec::new();
-        s.read_to_end(&mut raw).map_err(|e| format!("read: {}", e))?;
-        let resp = parse_response(&raw)?;
-        for (k, v) in &resp.headers {
-            if k.eq_ignore_ascii_case("set-cookie") {
-                let first = v.split(';').next().unwrap_or("");
-                if let Some((name, val)) = first.split_once('=') {
-                    let expired = v.to_lowercase().contains("max-age=0") || val.is_empty();
-                    if expired {
-                        self.cookies.remove(name.trim());
-                    } else {
-                        self.cookies.insert(name.trim().to_string(), val.trim().to_string());
-                    }
-                }
-            }
-        }
-        Ok(resp)
+        let mut bytes = req.into_bytes();
+        bytes.extend(payload);
+        bytes
     }
 
     pub fn get(&mut self, path: &str) -> Result<Response, String> {
